@@ -237,3 +237,25 @@ Print Assumptions C17_oracle_abs.
 Print Assumptions C17_self_replacement_wf.
 Print Assumptions C17_self_replacement_rejected.
 Print Assumptions C17_self_replacement_abs_differs.
+
+(** ** tie to the source text: the body of WebSocketLimits::check_outbound,
+    re-translated into Gallina by bin/rs2v on every run (Gen/LimitsGen.v), returns
+    [Ok(())] exactly when the model's [check_outbound] allows the message and
+    [Err(MessageTooLarge)] otherwise.  [None] (not translated, reported by rs2v)
+    degrades to [True]. *)
+From RepeV Require Import Base.GenLimitsPrelude Gen.LimitsGen Proofs.LimitsGenAgree.
+
+Theorem C17_source_translation :
+  match gen_check_outbound with
+  | Some f => forall l size, f l size = if check_outbound (l_peer l) size then Ok tt else Err EOther
+  | None => True
+  end.
+Proof. exact check_outbound_agrees. Qed.
+
+Check C17_source_translation :
+  match gen_check_outbound with
+  | Some f => forall l size, f l size = if check_outbound (l_peer l) size then Ok tt else Err EOther
+  | None => True
+  end.
+
+Print Assumptions C17_source_translation.
